@@ -92,15 +92,17 @@ Decl(n, k) ==
                                    after |-> ObsOf(cells, ptrs)])
     /\ UNCHANGED <<cells, ptrs, addrTaken>>
 
-\* p := &a    for a probe variable of an existing block
-AddrOf(b, i) ==
+\* p := &a    for a probe variable of an existing block; `how` says where the address-of
+\* expression stands: directly at top level, inside a function called at once, or inside a
+\* nested block of such a function (the global is then reached through outer frames)
+AddrOf(b, i, how) ==
     /\ Len(ptrs) < 2
     /\ LET mx == MaxAtCompile
            p == Prepare(intNum, mx)
        IN /\ cap' = p[1] /\ gen' = p[2] /\ err' = p[3] /\ intMax' = p[4]
           /\ ptrs' = Append(ptrs, [b |-> b, i |-> i, gen |-> p[2]])
           /\ addrTaken' = (addrTaken \/ IsInt(b, i))
-          /\ hist' = Append(hist, [op |-> "addr", b |-> b, i |-> i, err |-> p[3], after |-> ObsOf(cells, ptrs')])
+          /\ hist' = Append(hist, [op |-> "addr", b |-> b, i |-> i, how |-> how, err |-> p[3], after |-> ObsOf(cells, ptrs')])
     /\ UNCHANGED <<blocks, cells, intNum>>
 
 \* a = x   (via = 0)   or   *p = x   (via = index of the pointer)
@@ -115,7 +117,7 @@ Set(b, i, x, via) ==
 
 Next == /\ Len(hist) < MaxSteps /\ err = ""
         /\ \/ \E n \in DeclSizes, k \in Kinds : Decl(n, k)
-           \/ \E b \in 1..Len(blocks) : \E i \in Probes(b) : AddrOf(b, i)
+           \/ \E b \in 1..Len(blocks) : \E i \in Probes(b) : \E how \in {"direct", "func", "block"} : AddrOf(b, i, how)
            \/ \E b \in 1..Len(blocks) : \E i \in Probes(b) : Set(b, i, 100 + Len(hist), 0)
            \/ \E j \in 1..Len(ptrs) : Set(ptrs[j].b, ptrs[j].i, 200 + Len(hist), j)
 
